@@ -13,6 +13,7 @@
 -/
 import ScionTime.Proofs.Provider
 import ScionTime.Gen.Ntske
+import ScionTime.Gen.Server
 namespace ScionTime.C12
 open ScionTime.Provider
 
@@ -285,5 +286,237 @@ example :
     let bad : Params := { validity := 259200000000000, renewal := 345600000000000 }
     let r := current bad (init bad 0) 216000000000000 216000000000000
     Provider.get r.1 r.2.id (216000000000000 + 172800000000000) = none := by decide
+
+/-! ## The users of the provider (core/server): how keys reach cookies
+
+  The theorems above are about the provider alone. Whether a *cookie* is sealed under a fresh
+  key also depends on how `newNTSKEMsg`, `runIPServer` and `runSCIONServer` obtain the key
+  (`Model/Provider.lean`, `Use`): seeded C12-7 (a listener keeps its sealing key in a variable
+  outside the receive loop) and C12-8 (the key exchange takes `Newest()` instead of `Current()`)
+  leave the provider untouched. The usage facts are regenerated from /repo on every run by
+  `harness/extract/x_c12.go` and pinned here; under them the three users are `useStep`. -/
+
+/-- Pin: in `runIPServer` the only `Decrypt` opens with `key.Value` where `key` has the single
+    definition `key, ok := provider.Get(int(<that cookie>.ID))` inside the receive loop, directly
+    followed by `if !ok { …; continue }`; the only `EncryptWithNonce(key.Value, key.ID)` seals with a
+    `key` whose single definition is `key := provider.Current()` inside the receive loop (same
+    iteration: no variable holding a key is declared outside the loop). -/
+theorem C12_pin_keyUse_runIPServer :
+    Gen.Server.c12KeyUse_runIPServer =
+      "open@loop:key<-provider.Get(int(<cookie>.ID))#0@loop,ok-checked;seal@loop:key<-provider.Current()@loop" := by
+  decide
+
+/-- Pin: `runSCIONServer` uses keys exactly as `runIPServer` does. -/
+theorem C12_pin_keyUse_runSCIONServer :
+    Gen.Server.c12KeyUse_runSCIONServer = Gen.Server.c12KeyUse_runIPServer := by decide
+
+/-- Pin: `newNTSKEMsg` seals with a `key` whose single definition is `key := provider.Current()`
+    in the same call. -/
+theorem C12_pin_keyUse_newNTSKEMsg :
+    Gen.Server.c12KeyUse_newNTSKEMsg = "seal@func:key<-provider.Current()@func" := by decide
+
+/-- Pin: every use of a `*ntske.Provider` in core/server — it is only passed on from the start-up
+    functions to the three users, which call `Current` and `Get` and nothing else; no package
+    variable holds a key or a provider. -/
+theorem C12_pin_providerUses :
+    Gen.Server.c12ProviderUses =
+      "StartIPServer:pass:runIPServer;StartNTSKEServerIP:pass:runNTSKEServerTLS;StartNTSKEServerSCION:pass:runNTSKEServerQUIC;StartSCIONServer:pass:runSCIONServer;handleKeyExchangeQUIC:pass:newNTSKEMsg;handleKeyExchangeTLS:pass:newNTSKEMsg;newNTSKEMsg:Current;runIPServer:Current;runIPServer:Get;runNTSKEServerQUIC:pass:handleKeyExchangeQUIC;runNTSKEServerTLS:pass:handleKeyExchangeTLS;runSCIONServer:Current;runSCIONServer:Get" := by
+  rfl
+
+/-- A use is a short history of provider calls. -/
+theorem C12_use_step_is_calls (P : Params) (s : State) (u : Use) :
+    (useStep P s u).1 = exec P s (u.toOps s) := by
+  cases u with
+  | ke t1 t2 => rfl
+  | ntp id t auth c1 c2 =>
+    simp only [useStep, Use.toOps]
+    cases hg : Provider.get s id t with
+    | none => simp [exec, step, hg]
+    | some k => cases auth <;> simp [exec, step, hg]
+
+theorem C12_use_exec_is_calls (P : Params) (s : State) (us : List Use) :
+    useExec P s us = exec P s (flat P s us) := by
+  induction us generalizing s with
+  | nil => rfl
+  | cons u rest ih =>
+    simp only [useExec, flat, exec_append, ← C12_use_step_is_calls, ih]
+
+/-- use_reach: any history of uses whose provider calls have non-decreasing clock readings leaves
+    the provider in a reachable state — so every theorem above applies between uses. -/
+theorem C12_use_reach {P t0 now s} (hr : Reach P t0 now s) (us : List Use)
+    (ht : Timed now (flat P s us)) :
+    Reach P t0 (endTime now (flat P s us)) (useExec P s us) := by
+  rw [C12_use_exec_is_calls]; exact reach_exec hr ht
+
+/-- use_sealed_fresh: whatever one of the three users seals cookies with is the key `Current`
+    returned at clock readings `c1 ≤ c2` of that same call / iteration: it has
+    `notAfter = notBefore + validity`, was generated no later than `c2`, is unexpired at `c1` and
+    was generated at most `renewal` before `c1`. -/
+theorem C12_use_sealed_fresh {P t0 now s} (hv : 0 ≤ P.validity) (hn : 0 ≤ P.renewal)
+    (hr : Reach P t0 now s) (u : Use) (ht : Timed now (u.toOps s)) {k : Key}
+    (hk : (useStep P s u).2.sealedWith = some k) :
+    ∃ c1 c2, (u = .ke c1 c2 ∨ ∃ id t, u = .ntp id t true c1 c2 ∧ now ≤ t ∧ t ≤ c1) ∧ c1 ≤ c2 ∧
+      k.na = k.nb + P.validity ∧ k.nb ≤ c2 ∧ c1 ≤ k.na ∧ c1 - k.nb ≤ P.renewal := by
+  cases u with
+  | ke t1 t2 =>
+    simp only [Use.toOps, Timed, Op.tIn, Op.tOut, and_true] at ht
+    simp only [useStep, Option.some.injEq] at hk
+    subst hk
+    have h := C12_current_valid_fresh hv hn hr ht.1 ht.2
+    simp only at h
+    exact ⟨t1, t2, Or.inl rfl, ht.2, h.1, h.2.1, h.2.2.1, by omega⟩
+  | ntp id t auth c1 c2 =>
+    simp only [useStep] at hk
+    cases hg : Provider.get s id t with
+    | none => simp [hg] at hk
+    | some k0 =>
+      cases auth with
+      | false => simp [hg] at hk
+      | true =>
+        simp only [hg, if_true, Option.some.injEq] at hk
+        subst hk
+        simp only [Use.toOps, hg, Option.isSome_some, Bool.and_self, if_true, Timed, Op.tIn,
+          Op.tOut, and_true] at ht
+        obtain ⟨h0, -, h1, h2⟩ := ht
+        have hr' : Reach P t0 t s := by
+          have := reach_exec (P := P) hr (ops := [.get id t])
+            (by simp only [Timed, Op.tIn, Op.tOut, and_true]; exact ⟨h0, Int.le_refl _⟩)
+          simpa [exec, step, endTime, Op.tOut] using this
+        have h := C12_current_valid_fresh hv hn hr' h1 h2
+        simp only at h
+        exact ⟨c1, c2, Or.inr ⟨id, t, rfl, h0, h1⟩, h2, h.1, h.2.1, h.2.2.1, by omega⟩
+
+/-- use_opened_valid: a listener opens a request's cookie only with the key the cookie names,
+    and only while that key is within its validity period (at the listener's clock reading). -/
+theorem C12_use_opened_valid {P t0 now s} (hr : Reach P t0 now s) {id t c1 c2 : Int} {auth : Bool}
+    {k : Key} (hk : (useStep P s (.ntp id t auth c1 c2)).2.opened = some k) :
+    k.id = id ∧ k.nb ≤ t ∧ t ≤ k.na ∧ k.na = k.nb + P.validity := by
+  simp only [useStep] at hk
+  cases hg : Provider.get s id t with
+  | none => simp [hg] at hk
+  | some k0 =>
+    have : k0 = k := by cases auth <;> simpa [hg] using hk
+    subst this
+    exact C12_get_valid_only hr hg
+
+/-- A request is served (fresh cookies are sealed) only if its cookie's key was found. -/
+theorem C12_use_served_only_if_opened (P : Params) (s : State) (id t c1 c2 : Int) (auth : Bool)
+    (h : (useStep P s (.ntp id t auth c1 c2)).2.opened = none) :
+    (useStep P s (.ntp id t auth c1 c2)).2.sealedWith = none ∧ (useStep P s (.ntp id t auth c1 c2)).1 = s := by
+  simp only [useStep] at h ⊢
+  cases hg : Provider.get s id t with
+  | none => simp
+  | some k0 => cases auth <;> simp [hg] at h
+
+/-- The `Current` call of a sealing use, as a call on a reachable state. -/
+theorem C12_use_sealed_is_current {P t0 now s} (hr : Reach P t0 now s) (u : Use)
+    (ht : Timed now (u.toOps s)) {k : Key} (hk : (useStep P s u).2.sealedWith = some k) :
+    ∃ now' c1 c2, Reach P t0 now' s ∧ now' ≤ c1 ∧ c1 ≤ c2 ∧
+      (useStep P s u).1 = (current P s c1 c2).1 ∧ k = (current P s c1 c2).2 ∧
+      endTime now (u.toOps s) = c2 := by
+  cases u with
+  | ke t1 t2 =>
+    simp only [Use.toOps, Timed, Op.tIn, Op.tOut, and_true] at ht
+    simp only [useStep, Option.some.injEq] at hk
+    exact ⟨now, t1, t2, hr, ht.1, ht.2, rfl, hk.symm, rfl⟩
+  | ntp id t auth c1 c2 =>
+    simp only [useStep] at hk ⊢
+    cases hg : Provider.get s id t with
+    | none => simp [hg] at hk
+    | some k0 =>
+      cases auth with
+      | false => simp [hg] at hk
+      | true =>
+        simp only [hg, if_true, Option.some.injEq] at hk
+        simp only [Use.toOps, hg, Option.isSome_some, Bool.and_self, if_true, Timed, Op.tIn,
+          Op.tOut, and_true] at ht
+        obtain ⟨h0, -, h1, h2⟩ := ht
+        have hr' : Reach P t0 t s := by
+          have := reach_exec (P := P) hr (ops := [.get id t])
+            (by simp only [Timed, Op.tIn, Op.tOut, and_true]; exact ⟨h0, Int.le_refl _⟩)
+          simpa [exec, step, endTime, Op.tOut] using this
+        refine ⟨t, c1, c2, hr', h1, h2, ?_, hk.symm, ?_⟩
+        · simp
+        · simp [Use.toOps, hg, endTime, Op.tOut]
+
+/-- use_cookie_window: a cookie handed out by any of the three users (sealed under `k`), presented
+    to a listener at clock reading `t` after any further history of uses, is opened — with exactly
+    `k` — iff `t ≤ k.notAfter`. -/
+theorem C12_use_cookie_window {P t0 now s} (hr : Reach P t0 now s) (u : Use)
+    (ht : Timed now (u.toOps s)) {k : Key} (hk : (useStep P s u).2.sealedWith = some k)
+    (mid : List Use) (hm : Timed (endTime now (u.toOps s)) (flat P (useStep P s u).1 mid))
+    {t : Int} (he : endTime (endTime now (u.toOps s)) (flat P (useStep P s u).1 mid) ≤ t)
+    (auth : Bool) (c1 c2 : Int) :
+    (useStep P (useExec P (useStep P s u).1 mid) (.ntp k.id t auth c1 c2)).2.opened =
+      if t ≤ k.na then some k else none := by
+  obtain ⟨now', a, b, hr', h1, h2, hs, hkk, hend⟩ := C12_use_sealed_is_current hr u ht hk
+  rw [hend] at hm he
+  rw [hs] at hm he ⊢
+  rw [C12_use_exec_is_calls]
+  have hw := C12_cookie_window hr' h1 h2 _ hm he
+  simp only at hw
+  rw [← hkk] at hw
+  by_cases hle : t ≤ k.na
+  · rw [if_pos hle] at hw; rw [if_pos hle]; simp only [useStep, hw]; cases auth <;> simp
+  · rw [if_neg hle] at hw; rw [if_neg hle]; simp only [useStep, hw]
+
+/-- use_cookie_two_to_three_days: with /repo's constants, a cookie handed out by a key exchange or
+    in an NTP reply is accepted by every listener for at least 48 h after the clock reading of the
+    `Current` call it was sealed with (`c1` of `C12_use_sealed_fresh`), and by none later than 72 h
+    after its key was generated — whatever uses happen in between (idle gaps included). -/
+theorem C12_use_cookie_two_to_three_days {t0 now s} (hr : Reach std t0 now s) (u : Use)
+    (ht : Timed now (u.toOps s)) {k : Key} (hk : (useStep std s u).2.sealedWith = some k)
+    (mid : List Use) (hm : Timed (endTime now (u.toOps s)) (flat std (useStep std s u).1 mid))
+    {t : Int} (he : endTime (endTime now (u.toOps s)) (flat std (useStep std s u).1 mid) ≤ t)
+    (auth : Bool) (c1 c2 : Int) :
+    let o := (useStep std (useExec std (useStep std s u).1 mid) (.ntp k.id t auth c1 c2)).2.opened
+    (∀ a b, (u = .ke a b ∨ ∃ id t', u = .ntp id t' true a b) → t ≤ a + 48 * 3600 * 1000000000 → o = some k) ∧
+    (k.nb + 72 * 3600 * 1000000000 < t → o = none) := by
+  intro o
+  have hw := C12_use_cookie_window hr u ht hk mid hm he auth c1 c2
+  obtain ⟨a, b, hu, hab, hna, hnb, hva, hfr⟩ :=
+    C12_use_sealed_fresh (P := std) (by decide) (by decide) hr u ht hk
+  have e1 : std.validity = 259200000000000 := rfl
+  have e2 : std.renewal = 86400000000000 := rfl
+  refine ⟨fun a' b' hu' hle => ?_, fun hgt => ?_⟩
+  · have : a' = a := by
+      rcases hu with rfl | ⟨_, _, rfl, _⟩ <;> rcases hu' with h | ⟨_, _, h⟩ <;> cases h <;> rfl
+    subst this
+    change (useStep std _ _).2.opened = some k
+    rw [hw, if_pos (by omega)]
+  · change (useStep std _ _).2.opened = none
+    rw [hw, if_neg (by omega)]
+
+/-- Non-vacuity: key exchange at 5 (key 1), a request with that cookie 25 h later is served and
+    its reply is sealed under the renewed key 2; the first cookie is still opened exactly 48 h
+    after it was handed out and no longer 1 ns after 72 h. -/
+example :
+    let s := init std 0
+    let r := useStep std s (.ke 5 5)
+    let r2 := useStep std r.1 (.ntp 1 (5 + 90000000000000) true (5 + 90000000000000) (5 + 90000000000000))
+    r.2.sealedWith = some ⟨1, 0, 259200000000000⟩ ∧
+    r2.2.opened = some ⟨1, 0, 259200000000000⟩ ∧
+    r2.2.sealedWith = some ⟨2, 5 + 90000000000000, 5 + 90000000000000 + 259200000000000⟩ ∧
+    (useStep std r2.1 (.ntp 1 (5 + 172800000000000) true 0 0)).2.opened = some ⟨1, 0, 259200000000000⟩ ∧
+    (useStep std r2.1 (.ntp 1 259200000000001 true 0 0)).2.opened = none := by decide
+
+/-- Why the usage facts matter (seeded C12-7): a listener that keeps its sealing key across
+    iterations and refreshes it only when it is invalid seals, 25 h after its first request, under a
+    key generated 25 h before — although the provider itself would renew (`current` answers key 2). -/
+theorem C12_use_cached_key_stale :
+    let s := init std 0
+    let r1 := sealCachedOld std s zeroKey 5
+    let r2 := sealCachedOld std r1.1 r1.2.1 (5 + 90000000000000)
+    r2.2.2 = ⟨1, 0, 259200000000000⟩ ∧ (5 + 90000000000000) - r2.2.2.nb > std.renewal ∧
+    (current std r1.1 (5 + 90000000000000) (5 + 90000000000000)).2.id = 2 := by decide
+
+/-- …and seeded C12-8: a key exchange that takes the newest key as long as it is valid hands out,
+    after an idle gap of 30 h, cookies under the 30 h old key 1 (dead 42 h later, not 48). -/
+theorem C12_use_newest_key_stale :
+    let s := (current std (init std 0) 5 5).1
+    let r := sealNewestOld std s (108000000000000)
+    r.2 = ⟨1, 0, 259200000000000⟩ ∧ 108000000000000 - r.2.nb > std.renewal ∧
+    Provider.get r.1 1 (108000000000000 + 172800000000000) = none ∧
+    (current std s 108000000000000 108000000000000).2.id = 2 := by decide
 
 end ScionTime.C12
